@@ -270,7 +270,7 @@ def check(tier, seed):
                 out, idle, limit = [], 0, len(feed) + 4
                 while idle < limit:
                     try:
-                        out.append(await asyncio.wait_for(it.__anext__(), 0.02))
+                        out.append(await asyncio.wait_for(it.__anext__(), 0.4))      # (long enough that a result being produced is never cut off, even on a loaded machine)
                     except asyncio.TimeoutError:
                         idle += 1
                         if feed:
